@@ -5,7 +5,7 @@ GHOST_BOUNDS = r'''
   VF_B(vf_n_block); VF_B(vf_n_timed); VF_B(vf_n_try); VF_B(vf_n_cvwait); VF_B(vf_n_yield); VF_B(vf_n_mutex_ops); \
   VF_B(vf_n_notify); } while (0)
 '''
-GHOST_ASSIGNS = 'vf_held, vf_n_acq_excl, vf_n_acq_shared, vf_n_rel, vf_n_block, vf_n_timed, vf_n_try, vf_n_cvwait, vf_n_yield, vf_n_mutex_ops, vf_n_notify, vf_cs_entry_v, vf_exc, vf_assign_threw'
+GHOST_ASSIGNS = 'vf_held, vf_n_acq_excl, vf_n_acq_shared, vf_n_rel, vf_n_block, vf_n_timed, vf_n_try, vf_n_cvwait, vf_n_yield, vf_n_mutex_ops, vf_n_notify, vf_cs_entry_v, vf_exc, vf_assign_threw, vf_user_threw'
 
 COUNTERS = ['vf_n_acq_excl', 'vf_n_acq_shared', 'vf_n_rel', 'vf_n_block', 'vf_n_timed', 'vf_n_try', 'vf_n_cvwait', 'vf_n_yield', 'vf_n_mutex_ops', 'vf_n_notify']
 CNT_OK = '(' + ' && '.join('%s >= 0 && %s <= VF_BIG' % (c, c) for c in COUNTERS) + ')'
